@@ -125,6 +125,23 @@ EMBEDDING (shallow)
       unspecified value about which nothing can be proved.
   Boolean conditions are emitted as decidable propositions (`<=` `/\\` `\\/` `Not`); boolean values as `decide`.
   A local that re-declares a name already used in the same fn gets a numeric suffix (`msg_1`).
+
+ADDED FOR THE SM4 MODES (gm-sm4/src/lib.rs `Sm4CipherMode`, `block_xor`, `block_add_one`); everything else still fails
+  unit enum used as a type (struct field / parameter): emitted as `inductive E | V1 | V2 .. deriving Repr, DecidableEq,
+      Inhabited` (an enum that is only an error type is still not emitted; the header says which is which).
+  `match e { E::V1 => x1, E::V2 => x2, .. }` as the RETURNED value only (tail / `return`), `e` of a unit-enum type, the
+      arms exactly the variants once each, no `_`, no block bodies, no guards -> `match e with | E.V1 => return ..`.
+  returned value `x.m(..)` of a `&self` method with the same `Result` type; `?` on `x.m(..)` and on `S::assoc(..)`.
+  `let (s, c) = a.overflowing_add(b);` on u8 only -> `let (s, c) : UInt8 × Bool := Rs.overflowing_add8 a b`
+      (wrapped sum, `256 <= a + b`); no other tuple pattern / tuple value exists.  `c as u8` for `c: bool` -> 1 / 0.
+  `return;` inside a `for` of a unit fn with a `&mut` parameter (Lean's `return` in `for .. do`).
+  `Vec::new()` = `vec![]`; `vec![e; N]` -> `Array.replicate N e` (type `Vec<T>`).
+  `d.clone_from_slice(s)` = `d.copy_from_slice(s)` (both panic on different lengths) -> `Rs.copy_from_slice`.
+  `for x in a.iter() { .. *x .. }` -> `for x in a do` (x may only be used as `*x`).
+  `f(&mut v[..])` for a `&mut [T]` parameter and a local `v: Vec<T> / [T; N]`: the whole of `v` (`v <- f v`).
+  `&[e; N]` as an argument for a `&[T]` parameter.  `v.extend_from_slice(s)` -> `v := v ++ s`.
+  `v.resize(n, x)` -> `Rs.resize v n x` (truncate or pad).  `dst[..hi].copy_from_slice(src)` (lower bound 0).
+  u8 `a - b` -> `Rs.sub8 a b` (underflow panics: overflow-checks on, like u32 `-`).
 """
 import sys, re, hashlib
 
@@ -270,6 +287,7 @@ def tystr(t):
         if t[0] == 'slice': return '[%s]' % tystr(t[1])
         if t[0] == 'result': return 'Result<%s, %s>' % (tystr(t[1]), t[2])
         if t[0] == 'struct': return t[1]
+        if t[0] == 'enum': return t[1]
     return str(t)
 
 # ----------------------------------------------------------------------------------------------
@@ -303,6 +321,12 @@ class Parser:
             if toks[i].kind == 'ident' and toks[i].val == 'struct' and toks[i + 1].kind == 'ident' \
                     and toks[i + 2].kind == 'punct' and toks[i + 2].val == '{' and struct_selected(toks[i + 1].val):
                 self.struct_names.add(toks[i + 1].val)
+        self.enum_names = set()     # unit enums of the file: usable as a type (field / parameter / `match`)
+        self.enum_types_used = []   # those actually used as a type: emitted as a Lean `inductive`
+        for i in range(len(toks) - 2):
+            if toks[i].kind == 'ident' and toks[i].val == 'enum' and toks[i + 1].kind == 'ident' \
+                    and toks[i + 2].kind == 'punct' and toks[i + 2].val == '{':
+                self.enum_names.add(toks[i + 1].val)
         for n in sorted(self.extern_structs):
             if n in self.struct_names: fail(1, 'struct `%s` both declared here and imported from the --extern file' % n)
         self.struct_names |= self.extern_structs
@@ -599,6 +623,10 @@ class Parser:
             return ('struct', name)
         if name == 'Self' and self.selfty is not None:
             return ('struct', self.selfty)
+        if name in self.enum_names:
+            if self.at('<'): fail(line, 'generic type `%s<..>`' % name)
+            if name not in self.enum_types_used: self.enum_types_used.append(name)
+            return ('enum', name)
         if name in self.aliases:
             if not allow_result: fail(line, '`%s` outside a function return type' % name)
             self.expect('<'); ok = self.parse_type(); self.close_angle()
@@ -631,6 +659,12 @@ class Parser:
         if self.at('let'):
             self.next()
             mut = self.eat('mut') is not None
+            if self.at('(') and not mut and self.peek(1).kind == 'ident' and self.at(',', 2) and \
+                    self.peek(3).kind == 'ident' and self.at(')', 4) and self.at('=', 5):
+                # `let (x, y) = e;` (two plain names; the checker accepts only `a.overflowing_add(b)` for e)
+                self.next(); n1 = self.ident(); self.next(); n2 = self.ident(); self.next(); self.next()
+                e = self.parse_expr(); self.expect(';')
+                return Node('lettuple', line, names=[n1, n2], init=e), False
             if not self.peek().kind == 'ident': fail(line, 'pattern in `let`')
             name = self.ident(); ty = None
             if self.eat(':'): ty = self.parse_type()
@@ -644,7 +678,6 @@ class Parser:
             self.eat(';')
             return Node('while', line, cond=c, body=b), False
         if self.at('loop'): fail(line, '`loop`')
-        if self.at('match'): fail(line, '`match`')
         if self.at('for'):
             self.next()
             if self.at('_'):
@@ -654,6 +687,10 @@ class Parser:
             self.expect('in')
             r = self.parse_expr(nostruct=True)
             if r.kind == 'paren': r = r.e
+            if r.kind == 'method' and r.name == 'iter' and not r.args and v != '_':
+                # `for x in a.iter() { .. *x .. }`
+                b = self.parse_block(); self.eat(';')
+                return Node('foriter', line, var=v, recv=r.recv, body=b), False
             if r.kind != 'range' or r.lo is None or r.hi is None or r.inclusive:
                 fail(line, '`for` over something that is not a half-open range `a..b`')
             b = self.parse_block(); self.eat(';')
@@ -745,7 +782,11 @@ class Parser:
         if self.at('!'):
             self.next(); return Node('not', line, e=self.parse_unary(ns))
         if self.at('-'): fail(line, 'unary minus')
-        if self.at('*'): fail(line, 'dereference `*`')
+        if self.at('*'):
+            if self.peek(1).kind == 'ident' and not self.at('::', 2) and not self.at('(', 2) and not self.at('.', 2) \
+                    and not self.at('[', 2):
+                self.next(); return Node('deref', line, name=self.ident())   # `*x`, x the variable of `for x in a.iter()`
+            fail(line, 'dereference `*`')
         if self.at('&') or self.at('&&'):
             if self.at('&&'): fail(line, '`&&` borrow')
             self.next()
@@ -792,7 +833,10 @@ class Parser:
             elif self.at('('):
                 if e.kind != 'path': fail(line, 'call of a non-path expression')
                 args = self.parse_args()
-                e = Node('call', line, path=e.segs, args=args)
+                if e.segs == ['Vec', 'new'] and not args:
+                    e = Node('vecnew', line)
+                else:
+                    e = Node('call', line, path=e.segs, args=args)
             else:
                 return e
 
@@ -821,7 +865,23 @@ class Parser:
             self.expect(']'); return Node('arraylit', line, elems=elems)
         if self.at('if'):
             return self.parse_if()
-        if self.at('match'): fail(line, '`match`')
+        if self.at('match'):
+            # `match e { Enum::V => expr, .. }` over a unit enum; accepted by the checker as a returned value only
+            self.next()
+            scrut = self.parse_expr(nostruct=True)
+            self.expect('{')
+            arms = []
+            while not self.at('}'):
+                al = self.peek().line
+                if not (self.peek().kind == 'ident' and self.at('::', 1) and self.peek(2).kind == 'ident' and self.at('=>', 3)):
+                    fail(al, '`match` arm whose pattern is not `Enum::Variant`')
+                en = self.ident(); self.next(); vn = self.ident(); self.next()
+                if self.at('{'): fail(al, '`match` arm with a block body')
+                ae = self.parse_expr()
+                arms.append((en, vn, ae))
+                if not self.eat(','): break
+            self.expect('}')
+            return Node('match', line, scrut=scrut, arms=[a[2] for a in arms], pats=[(a[0], a[1]) for a in arms])
         if self.at('|') or self.at('||') or self.at('move'): fail(line, 'closure')
         if self.at('{'): fail(line, 'block expression')
         if self.at('unsafe'): fail(line, '`unsafe`')
@@ -837,6 +897,16 @@ class Parser:
                 if segs == ['vec'] and self.at('[', 1) and self.at(']', 2):
                     self.next(); self.next(); self.next()
                     return Node('vecnew', line)
+                if segs == ['vec'] and self.at('[', 1):
+                    # `vec![e; N]`
+                    save = self.p
+                    self.next(); self.next()
+                    first = self.parse_expr()
+                    if self.eat(';'):
+                        n = self.next()
+                        if n.kind == 'int' and self.at(']'):
+                            self.next(); return Node('repeat', line, e=first, n=n.val, isvec=True)
+                    self.p = save
                 fail(line, 'macro `%s!`' % '::'.join(segs) + (' with arguments' if segs == ['vec'] else ''))
             if self.at('{') and not ns:
                 if len(segs) != 1 or segs[0] not in self.struct_names:
@@ -859,7 +929,7 @@ class Parser:
             return Node('path', line, segs=segs)
         fail(line, 'token `%s` in an expression' % x.val)
 
-BUILTIN_METHODS = ('wrapping_add', 'wrapping_sub', 'wrapping_mul', 'rotate_left', 'rotate_right', 'len',
+BUILTIN_METHODS = ('overflowing_add', 'clone_from_slice', 'extend_from_slice', 'resize', 'iter', 'wrapping_add', 'wrapping_sub', 'wrapping_mul', 'rotate_left', 'rotate_right', 'len',
                    'to_vec', 'clone', 'unwrap', 'push', 'copy_from_slice', 'to_be_bytes', 'try_into', 'as_slice')
 
 # ----------------------------------------------------------------------------------------------
@@ -1018,6 +1088,18 @@ class Checker:
             return self.retexpr(e.e, expected)
         if e.kind == 'if':
             return self.ifnode(e, expected, ret=True)
+        if e.kind == 'match':
+            st = resolve(self.expr(e.scrut, None))
+            if not (isinstance(st, tuple) and st[0] == 'enum'):
+                fail(e.line, '`match` on %s (only a unit enum of this file)' % tystr(st))
+            vs = self.enums[st[1]].variants
+            if any(en != st[1] for en, _ in e.pats) or sorted(v for _, v in e.pats) != sorted(vs):
+                fail(e.line, '`match` whose arms are not exactly the variants of `%s`, once each' % st[1])
+            for a in e.arms: self.retexpr(a, expected)
+            e.ty = expected; e.isret = True; e.enum = st[1]
+            return
+        if fn.errty is not None and e.kind == 'method' and e.name not in BUILTIN_METHODS:
+            t = self.expr(e, fn.ret, allow_result=True); e.retkind = 'result'; return
         if fn.errty is not None:
             if e.kind == 'call' and e.path == ['Ok'] and len(e.args) == 1:
                 self.expr(e.args[0], fn.retval); e.ty = fn.ret; e.retkind = 'ok'; return
@@ -1041,6 +1123,25 @@ class Checker:
                 ty = self.expr(s.init, None)
             if ty == 'unit': fail(s.line, '`let` of a unit value')
             s.loc = self.declare(s.name, ty, s.mut, 'let', s.line)
+        elif k == 'lettuple':
+            m = s.init
+            if not (m.kind == 'method' and m.name == 'overflowing_add' and len(m.args) == 1):
+                fail(s.line, 'pattern in `let` whose initialiser is not `a.overflowing_add(b)`')
+            t = self.expr(m.recv, None)
+            if isinstance(resolve(t), IntVar) or resolve(t) not in ('u8', 'u32', 'u64'):
+                fail(s.line, '`.overflowing_add` on %s' % tystr(t))
+            self.expr(m.args[0], t)
+            m.ty = t; s.opty = t
+            s.locs = [self.declare(s.names[0], t, False, 'let', s.line), self.declare(s.names[1], 'bool', False, 'let', s.line)]
+        elif k == 'foriter':
+            t = self.expr(s.recv, None)
+            et = elem_of(t, s.line, '`.iter()`')
+            self.push()
+            s.loc = self.declare(s.var, et, False, 'iterref', s.line)
+            self.loopdepth = getattr(self, 'loopdepth', 0) + 1
+            self.block(s.body, None)
+            self.loopdepth -= 1
+            self.pop()
         elif k == 'assign':
             self.assign(s)
         elif k == 'while':
@@ -1076,7 +1177,7 @@ class Checker:
             e = s.e
             if e.kind == 'if':
                 self.ifnode(e, None)
-            elif e.kind == 'method' and e.name in ('push', 'copy_from_slice'):
+            elif e.kind == 'method' and e.name in ('push', 'copy_from_slice', 'clone_from_slice', 'extend_from_slice', 'resize'):
                 self.mutmethod(e)
             elif e.kind == 'method' and e.name not in BUILTIN_METHODS:
                 self.expr(e, None, stmt=True)
@@ -1141,9 +1242,10 @@ class Checker:
                 r.base.kind == 'path' and len(r.base.segs) == 1:
             # `dst[lo..hi].copy_from_slice(src)`
             loc, _ = self.place(r.base, '`.copy_from_slice`')
-            if r.idx.inclusive or r.idx.lo is None or r.idx.hi is None:
-                fail(e.line, '`.copy_from_slice` on a range that is not `lo..hi`')
-            self.expr(r.idx.lo, 'usize'); self.expr(r.idx.hi, 'usize')
+            if r.idx.inclusive or r.idx.hi is None:
+                fail(e.line, '`.copy_from_slice` on a range that is not `lo..hi` / `..hi`')
+            if r.idx.lo is not None: self.expr(r.idx.lo, 'usize')
+            self.expr(r.idx.hi, 'usize')
             if len(e.args) != 1: fail(e.line, '`.copy_from_slice` arity')
             at = self.expr(e.args[0], None)
             self.unify(elem_of(loc.ty, e.line, '`.copy_from_slice`'), elem_of(at, e.line, '`.copy_from_slice` argument'),
@@ -1158,6 +1260,15 @@ class Checker:
             if not (isinstance(t, tuple) and t[0] == 'vec') or len(e.args) != 1:
                 fail(e.line, '`.push` on %s' % tystr(t))
             self.expr(e.args[0], t[1])
+        elif e.name == 'extend_from_slice':
+            if not (isinstance(t, tuple) and t[0] == 'vec') or len(e.args) != 1:
+                fail(e.line, '`.extend_from_slice` on %s' % tystr(t))
+            at = self.expr(e.args[0], None)
+            self.unify(t[1], elem_of(at, e.line, '`.extend_from_slice` argument'), e.line, '`.extend_from_slice`')
+        elif e.name == 'resize':
+            if not (isinstance(t, tuple) and t[0] == 'vec') or len(e.args) != 2:
+                fail(e.line, '`.resize` on %s' % tystr(t))
+            self.expr(e.args[0], 'usize'); self.expr(e.args[1], t[1])
         else:
             if len(e.args) != 1: fail(e.line, '`.copy_from_slice` arity')
             at = self.expr(e.args[0], None)
@@ -1207,10 +1318,17 @@ class Checker:
             name = e.segs[0]
             loc = self.lookup(name)
             if loc is not None:
+                if loc.kind == 'iterref': fail(e.line, 'use of the `.iter()` variable `%s` without `*`' % name)
                 e.loc = loc; return loc.ty
             if name in self.consts:
                 e.const = self.consts[name]; return self.consts[name].cty
             fail(e.line, 'unknown identifier `%s`' % name)
+        if k == 'deref':
+            loc = self.lookup(e.name)
+            if loc is None or loc.kind != 'iterref':
+                fail(e.line, 'dereference `*%s` of something that is not the variable of `for %s in a.iter()`' % (e.name, e.name))
+            e.loc = loc; return loc.ty
+        if k == 'match': fail(e.line, '`match` that is not the returned value')
         if k == 'borrow':
             if e.mut: fail(e.line, '`&mut` outside a call argument')
             return self.expr(e.e, expected)
@@ -1224,6 +1342,8 @@ class Checker:
             ft = self.expr(e.e, None)
             if isinstance(resolve(ft), IntVar):
                 self.unify(ft, to, e.line, 'cast of a literal')
+            elif resolve(ft) == 'bool' and to == 'u8':
+                pass        # `b as u8` is 0 / 1
             elif resolve(ft) not in INT_TYPES:
                 fail(e.line, 'cast from %s' % tystr(ft))
             return to
@@ -1232,6 +1352,10 @@ class Checker:
         if k == 'repeat':
             et = None
             ex = resolve(expected) if expected is not None else None
+            if getattr(e, 'isvec', False):
+                if isinstance(ex, tuple) and ex[0] == 'vec': et = ex[1]
+                t = self.expr(e.e, et)
+                return ('vec', t)
             if isinstance(ex, tuple) and ex[0] == 'array':
                 et = ex[1]
                 if ex[2] != e.n: fail(e.line, 'array length %d where %d is expected' % (e.n, ex[2]))
@@ -1272,7 +1396,9 @@ class Checker:
             return self.method(e, expected, allow_result, stmt)
         if k == 'try':
             c = e.e
-            if c.kind != 'call' or c.path[-1] not in self.fns: fail(e.line, '`?` on something that is not a call of a translated fn')
+            if c.kind == 'method' and c.name not in BUILTIN_METHODS: pass
+            elif c.kind == 'call' and len(c.path) == 2 and c.path[0] in self.structs and '%s.%s' % tuple(c.path) in self.fns: pass
+            elif c.kind != 'call' or c.path[-1] not in self.fns: fail(e.line, '`?` on something that is not a call of a translated fn')
             t = resolve(self.expr(c, None, allow_result=True))
             if not (isinstance(t, tuple) and t[0] == 'result'): fail(e.line, '`?` on %s' % tystr(t))
             if self.cur is None or self.cur.errty != t[2]:
@@ -1322,7 +1448,9 @@ class Checker:
     def method(self, e, expected, allow_result, stmt=False):
         n = e.name
         if n not in BUILTIN_METHODS:
-            return self.usermethod(e, stmt)
+            return self.usermethod(e, stmt, allow_result)
+        if n in ('overflowing_add', 'clone_from_slice', 'extend_from_slice', 'resize', 'iter'):
+            fail(e.line, '`.%s` in this position' % n)
         if n in ('wrapping_add', 'wrapping_sub', 'wrapping_mul'):
             if len(e.args) != 1: fail(e.line, '`.%s` arity' % n)
             t = self.expr(e.recv, expected)
@@ -1379,7 +1507,7 @@ class Checker:
             return t[1]
         fail(e.line, 'method `.%s`' % n)
 
-    def usermethod(self, e, stmt):
+    def usermethod(self, e, stmt, allow_result=False):
         """`recv.m(args)` where recv has a translated struct type and `m` takes `&self` / `&mut self`"""
         n = e.name
         rt = resolve(self.expr(e.recv, None))
@@ -1406,8 +1534,8 @@ class Checker:
             if prm.mutref: fail(a.line, '`&mut` argument of a method call')
             self.arg(a, prm.pty)
         t = fn.ret
-        if isinstance(t, tuple) and t[0] == 'result':
-            fail(e.line, 'method returning `Result`')
+        if isinstance(t, tuple) and t[0] == 'result' and not allow_result:
+            fail(e.line, 'method returning `Result` used without `?`')
         if t == 'unit' and not stmt:
             fail(e.line, 'unit method call used as a value')
         return t
@@ -1421,6 +1549,11 @@ class Checker:
             if isinstance(t, tuple) and t[0] in ('array', 'vec'):
                 self.unify(t[1], p[1], a.line, 'argument'); a.ty = p
                 return p
+        if isinstance(p, tuple) and p[0] == 'slice' and a.kind == 'borrow' and not a.mut and a.e.kind == 'repeat' \
+                and not getattr(a.e, 'isvec', False):
+            # `&[e; N]` for a `&[T]` parameter
+            self.expr(a.e, ('array', p[1], a.e.n)); a.ty = p
+            return p
         return self.expr(a, pty)
 
     def call(self, e, expected, allow_result, stmt):
@@ -1457,8 +1590,17 @@ class Checker:
         e.fn = fn; e.mutargs = []
         for a, prm in zip(e.args, fn.params):
             if prm.mutref:
+                if a.kind == 'borrow' and a.mut and a.e.kind == 'index' and a.e.idx.kind == 'range' and a.e.idx.lo is None \
+                        and a.e.idx.hi is None and a.e.base.kind == 'path' and len(a.e.base.segs) == 1 and \
+                        isinstance(resolve(prm.pty), tuple) and resolve(prm.pty)[0] == 'slice':
+                    # `&mut local[..]` for a `&mut [T]` parameter: the whole of `local` (its length cannot change)
+                    loc, _ = self.place(a.e.base, '`&mut` borrow')
+                    self.unify(elem_of(loc.ty, a.line, '`&mut x[..]`'), resolve(prm.pty)[1], a.line, 'argument')
+                    a.mutwhole = a.e.base
+                    e.mutargs.append(loc)
+                    continue
                 if not (a.kind == 'borrow' and a.mut and a.e.kind == 'path' and len(a.e.segs) == 1):
-                    fail(a.line, 'argument for a `&mut` parameter that is not `&mut local`')
+                    fail(a.line, 'argument for a `&mut` parameter that is not `&mut local` / `&mut local[..]`')
                 loc, _ = self.place(a.e, '`&mut` borrow')
                 self.unify(loc.ty, prm.pty, a.line, 'argument')
                 e.mutargs.append(loc)
@@ -1497,7 +1639,7 @@ def node_effect(n, effectful_fns):
     if k == 'index': return True
     if k == 'while': return True
     if k == 'try': return True
-    if k == 'method' and n.name in ('unwrap', 'copy_from_slice'): return True
+    if k == 'method' and n.name in ('unwrap', 'copy_from_slice', 'clone_from_slice'): return True
     if k == 'call' and getattr(n, 'retkind', None) == 'err': return True
     if k == 'call' and hasattr(n, 'fn') and n.fn.name in effectful_fns: return True
     if k == 'method' and hasattr(n, 'fn') and n.fn.name in effectful_fns: return True
@@ -1565,6 +1707,8 @@ def lean_ty(t):
         return 'Array %s' % (inner if ' ' not in inner else '(%s)' % inner)
     if isinstance(t, tuple) and t[0] == 'struct':
         return EXTERN_LEAN[t[1]] if t[1] in EXTERN_LEAN else lname(t[1])
+    if isinstance(t, tuple) and t[0] == 'enum':
+        return lname(t[1])
     raise Unsupported('internal: no Lean type for %s' % tystr(t))
 
 def fn_lean(fn):
@@ -1620,6 +1764,7 @@ class Emitter:
             if hasattr(e, 'loc'): return lname(e.loc.lname)
             return lname(e.const.name)
         if k == 'borrow': return self.expr(e.e)
+        if k == 'deref': return lname(e.loc.lname)
         if k == 'not':
             if t == 'bool': return '(!%s)' % self.expr(e.e)
             if t == 'usize': fail(e.line, '`!` on usize')
@@ -1628,6 +1773,7 @@ class Emitter:
             ft, to = resolve(e.e.ty), e.to
             x = self.expr(e.e)
             if ft == to: return x
+            if ft == 'bool': return '(if %s then (1 : UInt8) else (0 : UInt8))' % self.cond(e.e)
             if ft == 'usize': return '(%s.ofNat %s)' % (lean_ty(to), x)
             if to == 'usize': return '%s.toNat' % self.atom(x)
             return '%s.to%s' % (self.atom(x), lean_ty(to))
@@ -1656,7 +1802,7 @@ class Emitter:
             return '(if %s then %s else %s)' % (self.cond(e.cond), self.expr(e.th.tail), self.expr(e.el.tail))
         if k == 'method': return self.method(e)
         if k == 'try':
-            return self.act(self.callstr(e.e))
+            return self.act(self.methodcall(e.e) if e.e.kind == 'method' else self.callstr(e.e))
         if k == 'call':
             if getattr(e, 'builtin', None) == 'from_be_bytes':
                 self.helpers.add('from_be_bytes32')
@@ -1688,7 +1834,7 @@ class Emitter:
     def callstr(self, e):
         args = []
         for a, prm in zip(e.args, e.fn.params):
-            args.append(self.atom(self.expr(a.e if prm.mutref else a)))
+            args.append(self.atom(self.expr((getattr(a, 'mutwhole', None) or a.e) if prm.mutref else a)))
         return ' '.join([fn_lean(e.fn)] + args)
 
     def binop(self, e):
@@ -1720,6 +1866,9 @@ class Emitter:
         if t == 'u32' and op == '-':
             self.helpers.add('sub32')
             return self.act('Rs.sub32 %s %s' % (self.atom(l), self.atom(r)))
+        if t == 'u8' and op == '-':
+            self.helpers.add('sub8')
+            return self.act('Rs.sub8 %s %s' % (self.atom(l), self.atom(r)))
         if INT_CHECKED and t in ('u32', 'u64') and op in ('+', '-', '*'):
             h = {'+': 'add', '-': 'sub', '*': 'mul'}[op] + str(BITS[t])
             self.helpers.add(h)
@@ -1843,10 +1992,18 @@ class Emitter:
         if e is None:
             self.out(ind, 'return %s' % self.ret_value(fn, None)); return
         while e.kind == 'paren': e = e.e
-        if e.kind != 'if': self.hoist(ind, [e])
+        if e.kind not in ('if', 'match'): self.hoist(ind, [e])
         if e.kind == 'if' and getattr(e, 'isret', False):
             self.emit_if(ind, e, tailret=True); return
+        if e.kind == 'match':
+            self.out(ind, 'match %s with' % self.expr(e.scrut))
+            for (en, vn), a in zip(e.pats, e.arms):
+                self.out(ind, '| %s.%s =>' % (lname(en), lname(vn)))
+                self.emit_return(ind + 1, a)
+            return
         rk = getattr(e, 'retkind', 'plain')
+        if rk == 'result' and e.kind == 'method':
+            self.out(ind, 'return %s' % self.ret_value(fn, self.act(self.methodcall(e)))); return
         if rk == 'err':
             self.out(ind, 'Rs.err "%s"' % e.variant); return
         if rk == 'ok':
@@ -1886,6 +2043,16 @@ class Emitter:
             self.hoist(ind, [s.init])
             ann = ' : %s' % lean_ty(s.loc.ty)
             self.out(ind, 'let %s%s%s := %s' % ('mut ' if s.mut else '', lname(s.loc.lname), ann, self.expr(s.init)))
+        elif k == 'lettuple':
+            h = 'overflowing_add%d' % BITS[resolve(s.opty)]
+            if h != 'overflowing_add8': fail(s.line, '`.overflowing_add` on %s' % tystr(s.opty))
+            self.helpers.add(h)
+            self.out(ind, 'let (%s, %s) : %s × Bool := Rs.%s %s %s' % (
+                lname(s.locs[0].lname), lname(s.locs[1].lname), lean_ty(s.opty), h,
+                self.atom(self.expr(s.init.recv)), self.atom(self.expr(s.init.args[0]))))
+        elif k == 'foriter':
+            self.out(ind, 'for %s in %s do' % (lname(s.loc.lname), self.expr(s.recv)))
+            self.emit_block(ind + 1, s.body, False)
         elif k == 'assign' and (s.lhs.kind == 'field' or s.lhs.kind == 'index' and s.lhs.base.kind == 'field'):
             # `x.f = e` / `x.f[i] = e`: the struct value is rebuilt with the new field
             if s.op == '=': self.hoist(ind, [s.rhs])
@@ -1952,9 +2119,17 @@ class Emitter:
                 self.helpers.add('copy_into_range')
                 v = lname(e.recv.base.loc.lname)
                 self.out(ind, '%s ← Rs.copy_into_range %s %s %s %s' % (
-                    v, v, self.atom(self.expr(e.recv.idx.lo)), self.atom(self.expr(e.recv.idx.hi)),
+                    v, v, self.atom(self.expr(e.recv.idx.lo)) if e.recv.idx.lo is not None else '(0 : Nat)',
+                    self.atom(self.expr(e.recv.idx.hi)),
                     self.atom(self.expr(e.args[0]))))
-            elif e.kind == 'method' and e.name == 'copy_from_slice':
+            elif e.kind == 'method' and e.name == 'extend_from_slice':
+                v = lname(e.recv.loc.lname)
+                self.out(ind, '%s := %s ++ %s' % (v, v, self.atom(self.expr(e.args[0]))))
+            elif e.kind == 'method' and e.name == 'resize':
+                self.helpers.add('resize')
+                v = lname(e.recv.loc.lname)
+                self.out(ind, '%s := Rs.resize %s %s %s' % (v, v, self.atom(self.expr(e.args[0])), self.atom(self.expr(e.args[1]))))
+            elif e.kind == 'method' and e.name in ('copy_from_slice', 'clone_from_slice'):
                 v = lname(e.recv.loc.lname)
                 self.out(ind, '%s ← Rs.copy_from_slice %s %s' % (v, v, self.atom(self.expr(e.args[0]))))
             elif e.kind == 'method' and getattr(e, 'stmtcall', False):
@@ -2008,7 +2183,7 @@ class Emitter:
         if eff: rty = 'Outcome %s' % paren_ty(rty)
         head = 'def %s %s : %s :=' % (lname(fn.name), params, rty) if params else 'def %s : %s :=' % (lname(fn.name), rty)
         b = fn.body
-        if not eff and not b.stmts and b.tail is not None and b.tail.kind != 'if' and not any(p.mutref for p in fn.params):
+        if not eff and not b.stmts and b.tail is not None and b.tail.kind not in ('if', 'match') and not any(p.mutref for p in fn.params):
             return [head, '  ' + self.expr(b.tail)]
         self.lines.append(head + (' do' if eff else ' Id.run do'))
         for p in fn.params:
@@ -2099,6 +2274,17 @@ PRELUDE_EXTRA = [
 /-- u32 `a - b`: underflow panics (overflow-checks on; when this never fires the result is also the
     release-mode result) -/
 @[inline] def sub32 (a b : UInt32) : Outcome UInt32 := if b ≤ a then .ok (a - b) else .panic'''),
+    ('sub8', '''\
+/-- u8 `a - b`: underflow panics (overflow-checks on; when this never fires the result is also the
+    release-mode result) -/
+@[inline] def sub8 (a b : UInt8) : Outcome UInt8 := if b ≤ a then .ok (a - b) else .panic'''),
+    ('overflowing_add8', '''\
+/-- u8 `a.overflowing_add(b)`: the wrapped sum and whether the exact sum does not fit 8 bits -/
+@[inline] def overflowing_add8 (a b : UInt8) : UInt8 × Bool := (a + b, decide (256 ≤ a.toNat + b.toNat))'''),
+    ('resize', '''\
+/-- `v.resize(n, x)`: truncate to `n` elements, or pad with `x` up to `n` -/
+@[inline] def resize {α} (v : Array α) (n : Nat) (x : α) : Array α :=
+  if n ≤ v.size then v.extract 0 n else v ++ Array.replicate (n - v.size) x'''),
     ('add32', '''\
 /-- u32 `a + b` with `--int-overflow=panic`: a result that does not fit 32 bits panics (overflow-checks on;
     when this never fires the result is also the release-mode result) -/
@@ -2198,6 +2384,11 @@ def translate(src, ns, srcname, extern=None):
         if it.kind == 'const':
             body += ['/-- line %d: `%s` -/' % (it.line, it.name)] + em.emit_const(it) + ['']
     for it in items:
+        if it.kind == 'enum' and it.name in ps.enum_types_used:
+            body += ['/-- line %d: `enum %s` (unit variants) -/' % (it.line, it.name), 'inductive %s where' % lname(it.name)]
+            body += ['  | %s' % lname(v) for v in it.variants]
+            body += ['deriving Repr, DecidableEq, Inhabited', '']
+    for it in items:
         if it.kind == 'struct':
             body += ['/-- line %d: `struct %s` -/' % (it.line, it.name), 'structure %s where' % lname(it.name)]
             body += ['  %s : %s' % (lname(n), lean_ty(t)) for n, t in it.fields]
@@ -2215,7 +2406,9 @@ def translate(src, ns, srcname, extern=None):
     for line, what in ps.skipped:
         out.append('--   line %d: %s' % (line, what))
     for it in items:
-        if it.kind == 'enum':
+        if it.kind == 'enum' and it.name in ps.enum_types_used:
+            out.append('--   (line %d: enum `%s` is used as a type and translated to an `inductive`)' % (it.line, it.name))
+        elif it.kind == 'enum':
             out.append('--   line %d: enum `%s` (only its variant names %s are used)' % (it.line, it.name, ', '.join(it.variants)))
     if ext:
         out.append('-- extern (--extern, imported, not translated again): %s from %s sha256 %s = %s' % (
